@@ -158,7 +158,80 @@ def _kde_truncated_mass(model):
         return None
 
 
+class ScipyTwin:
+    """scipy's own distribution functions at the fitted parameters, behind the library's method names."""
+
+    def __init__(self, dist, params):
+        self._dist, self._params = dist, dict(params)
+
+    def cumulative_distribution(self, x):
+        return self._dist.cdf(x, **self._params)
+
+    def probability_density(self, x):
+        return self._dist.pdf(x, **self._params)
+
+    def log_probability_density(self, x):
+        return self._dist.logpdf(x, **self._params)
+
+    def percent_point(self, q):
+        return self._dist.ppf(q, **self._params)
+
+    cdf, pdf, ppf = cumulative_distribution, probability_density, percent_point
+
+
+def scipy_twin(model):
+    inner = getattr(model, '_instance', None) or model
+    dist, params = getattr(inner, 'MODEL_CLASS', None), getattr(inner, '_params', None)
+    if dist is None or not params or type(inner).__name__ == 'GaussianKDE' or not hasattr(dist, 'cdf'):
+        return None
+    return ScipyTwin(dist, params)
+
+
 def laws(ctx, model, data, where, prop='C03', full=True):
+    """The law oracle, with one refinement for the scipy-backed families: the library only delegates to
+    scipy.stats, and scipy's own pdf / logpdf / cdf / ppf become mutually inconsistent for extreme fitted
+    parameters (a beta selected for data of scale 1e-6: logpdf off by 0.02, cdf(ppf(0.01)) off by 2e-6).  A law
+    that scipy's own functions break in the same way at the same parameters is counted inconclusive; and
+    the delegation itself is checked exactly, so that any deviation of the library from scipy is judged by the
+    laws in full."""
+    from vmon.core import Ctx
+    twin = scipy_twin(model)
+    if twin is None:
+        return _laws(ctx, model, data, where, prop, full)
+    sub = Ctx(ctx.prop, ctx.tier, ctx.seed)
+    sub.spec, sub.case_index = ctx.spec, ctx.case_index
+    _laws(sub, model, data, where, prop, full)
+    viol = [e for e in sub.events if e['verdict'] == 'violation']
+    excused = set()
+    if viol:
+        sub2 = Ctx(ctx.prop, ctx.tier, ctx.seed)
+        try:
+            _laws(sub2, twin, data, where, prop, full)
+        except Exception:  # noqa: BLE001
+            pass
+        twin_mechs = {e['mech'] for e in sub2.events if e['verdict'] == 'violation'}
+        excused = {id(e) for e in viol if e['mech'] in twin_mechs}
+    for e in sub.events:
+        if id(e) in excused:
+            ctx.note("law broken by scipy's own functions at the fitted parameters (inconclusive): " + e['mech'])
+            ctx.counters[e['probe']] -= 0
+        else:
+            ctx.events.append(e)
+    ctx.counters.update(sub.counters)
+    ctx.notes.update(sub.notes)
+    for k, v in sub.stats.items():
+        ctx.maxstat(k, v['max'], v['at'])
+    # the library's functions ARE scipy's at the fitted parameters
+    x = np.quantile(data, [0.0, 0.2, 0.5, 0.9, 1.0])
+    q = np.array([0.0, 0.1, 0.5, 0.99, 1.0])
+    for name, arg in (('cumulative_distribution', x), ('probability_density', x), ('log_probability_density', x), ('percent_point', q)):
+        oa, a = ctx.call(getattr(model, name), arg)
+        ob, b = ctx.call(getattr(twin, name), arg)
+        ctx.check(oa == ob and (not oa or np.array_equal(np.asarray(a, dtype=float), np.asarray(b, dtype=float), equal_nan=True)),
+                  'delegates-to-scipy', prop + ':%s-is-not-scipys-function-at-the-fitted-parameters' % name, where)
+
+
+def _laws(ctx, model, data, where, prop='C03', full=True):
     """Distribution-function laws on a fitted, non-constant univariate model."""
     lo, hi = float(np.min(data)), float(np.max(data))
     span = hi - lo if hi > lo else 1.0
